@@ -12,6 +12,11 @@ Hypotheses used below are exactly what `verify_hyperparameters` guarantees:
 `AllPos lengths` (strictly increasing keypoints).  Every theorem holds for ANY kernel, ANY number
 of keypoints and ANY `num_projection_iterations` unless stated otherwise; the proof quantifies
 over an arbitrary result of the Dykstra loop (`finalize_spec`).
+
+The theorems of this file take `projectAll … = .ok out`. WHEN the projection returns is settled in
+`Lemmas/PwlProj.lean` (`projectAll_ok_iff`: iff no clamp is requested without monotonicity, the known
+finding F-C16-m) and Props/C04Accepted.lean restates the clauses for accepted configurations in the
+total form `∃ out, projectAll … = .ok out ∧ …`.
 -/
 namespace Tfl.C04
 open Tfl Tfl.PwlProj
@@ -204,8 +209,9 @@ theorem feasible_unchanged (c : Cfg) (hc : CfgOk c) (L : List Rat) (hl : AllPos 
 example : projectAll ⟨1, 1, 0, 1, .clamped, .clamped⟩ [1, 1] 8 0 [1/4, 3/4] = .ok (0, [1/4, 3/4]) := by
   decide +kernel
 
-/-- **T6 (imputed missing output).** `NaiveBoundsConstraints(output_min, output_max)` — the
-constraint `build()` attaches to the learned `missing_output` — returns a value within the bounds. -/
+/-- **T6 (imputed missing output, LEARNED).** `NaiveBoundsConstraints(output_min, output_max)` — the
+constraint `build()` attaches to the learned `missing_output` — returns a value within the bounds.
+(A FIXED `missing_output_value` is a constant without constraint: `missing_output_fixed_is_value`.) -/
 theorem missing_output_in_bounds (lo hi : Option Rat) (hb : ∀ l h, lo = some l → hi = some h → l ≤ h)
     (w : Rat) :
     (∀ l, lo = some l → l ≤ naiveBounds lo hi w) ∧ (∀ h, hi = some h → naiveBounds lo hi w ≤ h) := by
@@ -218,6 +224,34 @@ theorem missing_output_in_bounds (lo hi : Option Rat) (hb : ∀ l h, lo = some l
     refine ⟨fun l' e => ?_, fun h' e => (by cases e; exact min_le_right _ _)⟩
     cases e
     exact le_min (le_max_right _ _) (hb l h rfl rfl)
+
+/-- **T6, both kinds of imputed missing output.** `missing_output_in_bounds` is about the LEARNED missing
+output (`missing_output_value=None`): it lies within the bounds after the constraint, whatever the
+optimizer wrote. A FIXED `missing_output_value = v` is a constant the layer never constrains: the imputed
+output IS `v` — for every raw value — and hence lies within `[output_min, output_max]` **iff** `v` does.
+A value outside the bounds is accepted by the constructor and returned as is, by design (upstream's own
+tests configure imputed outputs outside the output range; see `C04.fixed_missing_output_accepted` for
+the constructor model and C15's `fixed_missing_output_outside_range_accepted`); the property's clause
+"the imputed missing-value output also stays within the bounds" is therefore claimed, and true, for the
+learned output and for fixed values chosen inside the bounds. -/
+theorem missing_output_fixed_is_value (v : Rat) (lo hi : Option Rat) (w : Rat) :
+    missingOutputOf (some v) lo hi w = v ∧
+    (((∀ l, lo = some l → l ≤ missingOutputOf (some v) lo hi w) ∧
+      (∀ h, hi = some h → missingOutputOf (some v) lo hi w ≤ h)) ↔
+     ((∀ l, lo = some l → l ≤ v) ∧ (∀ h, hi = some h → v ≤ h))) :=
+  ⟨rfl, Iff.rfl⟩
+
+/-- the learned case in the same vocabulary -/
+theorem missing_output_learned_in_bounds (lo hi : Option Rat)
+    (hb : ∀ l h, lo = some l → hi = some h → l ≤ h) (w : Rat) :
+    (∀ l, lo = some l → l ≤ missingOutputOf none lo hi w) ∧
+    (∀ h, hi = some h → missingOutputOf none lo hi w ≤ h) :=
+  missing_output_in_bounds lo hi hb w
+
+/-- a fixed value outside the bounds stays outside: `output_min = 0`, `output_max = 1`,
+`missing_output_value = 5` imputes 5 (what the real layer returns and `assert_constraints` accepts) -/
+example : missingOutputOf (some 5) (some 0) (some 1) (1/2) = 5 ∧ missingOutputOf none (some 0) (some 1) 5 = 1 := by
+  decide +kernel
 
 /-- the wiring of `PWLCalibration.__init__`: `convert_all_constraints` yields a configuration
 that satisfies `CfgOk` whenever `verify_hyperparameters` accepted the bounds. -/
